@@ -28,7 +28,9 @@ CONSTANTS GeomPool,    \* objects offered to Make: [cls, frames, world]; frame =
           SmallPool,   \* the objects that may be dumped one after another into the same stream
           FilePool,    \* frames lists with integer "grain" coordinates: files of other programs
           Units,       \* names accepted as source_units (members of DistanceUnit, aliases included)
-          Dec,         \* number of decimals the writer emits (read off its text by the harness), 1..6
+          Dec,         \* number of decimals the default format of the writer emits (read off its text by the harness)
+          FmtDecs,     \* decimals a caller asks for through dump_xyz(stream, fmt = ...)
+          FmtPool,     \* the objects written with such a format in the model
           MaxDumps,    \* bound on dumps into one stream
           Deviations   \* named wrong behaviours (non-vacuity; the first three describe the pinned tree)
 VARIABLES mem, text, truth, last
@@ -71,9 +73,16 @@ ToMicroAInverted(U, t, d) ==
       e == 6 - d + PerAngstrom[U].p
   IN IF e >= 0 THEN t * n * Pow10(e) ELSE (t * n) \div Pow10(-e)
 
-World(g) == IF "world" \in DOMAIN g THEN g.world ELSE 1
+(* the object's length scale as a decimal exponent: 10^world Angstrom (0; 3 for |x| up to 2e6 A; -3 for digits down    *)
+(* to 1e-10 A); a writer with D decimals of Angstrom shows D + world decimals of the scale unit, of which the model,   *)
+(* whose coordinates have six decimals plus the digit s, follows at most six                                          *)
+World(g) == IF "world" \in DOMAIN g THEN g.world ELSE 0
+ModelDec(D, w) == IF D + w > 6 THEN 6 ELSE D + w
+(* the comment line holds the object's name: "" / " " / a tab give a BLANK line inside the frame *)
+BlankNames == {"empty", "space", "tab"}
+BlankName(g) == "name" \in DOMAIN g /\ g.name \in BlankNames
 (* ---- writing: "to the written precision" = nearest multiple of 10^-d ------- *)
-Q(d) == Pow10(6 - d)                                     \* micro-Angstrom per unit of the last written place
+Q(d) == Pow10(6 - d)                                     \* micro-units per unit of the last written place
 NoTie(c, d) == 2 * (10 * (c.u % Q(d)) + c.s) # 10 * Q(d)  \* pools avoid exact halves (binary floats have none)
 RoundTo(c, d) == LET q  == Q(d)
                      t0 == c.u \div q
@@ -84,26 +93,28 @@ WrittenEl(a) == IF "DummyTypeHidesElement" \in Deviations /\ a.ty = "dummy" THEN
 (* a value needs 13 or more characters in %.6f once it reaches 1e5 or -1e4 units of Angstrom: a writer that lets   *)
 (* such a value touch its neighbour produces a line no reader can split (deviation WideColumnsFuse, ensemble writer) *)
 WideK(t, d) == t >= Pow10(d + 2) \/ t <= -Pow10(d + 1)        \* t in 10^-d kiloangstrom: >= 1e5 A or <= -1e4 A
-AtomLine(a, d, w, ens) ==
-  LET x == RoundTo(a.x, d)
-      y == RoundTo(a.y, d)
-      z == RoundTo(a.z, d)
-  IN IF "WideColumnsFuse" \in Deviations /\ ens /\ w = 1000 /\ (WideK(y, d) \/ WideK(z, d))
+(* o = how the object is written: [d: model decimals, w: scale, ens: by the ensemble writer, cap: decimals that are   *)
+(* real (= d, unless deviation FmtPrecisionCapped rounds at six decimals of Angstrom whatever fmt asks), blank]       *)
+Written(c, o) == IF o.cap < o.d THEN RoundTo(c, o.cap) * Pow10(o.d - o.cap) ELSE RoundTo(c, o.d)
+AtomLine(a, o) ==
+  LET x == Written(a.x, o)
+      y == Written(a.y, o)
+      z == Written(a.z, o)
+  IN IF "WideColumnsFuse" \in Deviations /\ o.ens /\ o.w = 3 /\ (WideK(y, o.d) \/ WideK(z, o.d))
        THEN [k |-> "bad"]
      ELSE IF "ColumnsSwapped" \in Deviations
        THEN [k |-> "atom", el |-> WrittenEl(a), x |-> x, y |-> z, z |-> y]
        ELSE [k |-> "atom", el |-> WrittenEl(a), x |-> x, y |-> y, z |-> z]
-Header(f)        == <<[k |-> "count", n |-> Len(f)], [k |-> "comment"]>>
-Body(f, d, w, ens)       == [i \in 1..Len(f) |-> AtomLine(f[i], d, w, ens)]
-FrameLines(f, d, w, ens) == Header(f) \o Body(f, d, w, ens)
-RECURSIVE RenderFrames(_, _, _, _, _)
-RenderFrames(fs, d, first, w, ens) ==
+Header(f, blank)  == <<[k |-> "count", n |-> Len(f)], [k |-> "comment", blank |-> blank]>>
+Body(f, o)        == [i \in 1..Len(f) |-> AtomLine(f[i], o)]
+FrameLines(f, o)  == Header(f, o.blank) \o Body(f, o)
+RECURSIVE RenderFrames(_, _, _)
+RenderFrames(fs, o, first) ==
   IF fs = <<>> THEN <<>>
-  ELSE (IF "FrameBoundaryLost" \in Deviations /\ ~first THEN Body(Head(fs), d, w, ens) ELSE FrameLines(Head(fs), d, w, ens))
-       \o RenderFrames(Tail(fs), d, FALSE, w, ens)
-Render(g, d) == RenderFrames(g.frames, d, TRUE, World(g), g.cls = Ens)
+  ELSE (IF "FrameBoundaryLost" \in Deviations /\ ~first THEN Body(Head(fs), o) ELSE FrameLines(Head(fs), o))
+       \o RenderFrames(Tail(fs), o, FALSE)
 
-(* what a frame written with d decimals denotes, in micro-Angstrom *)
+(* what a frame written with d decimals denotes, in micro-units *)
 Denotes(f, d) == [i \in 1..Len(f) |-> <<f[i].el, RoundTo(f[i].x, d) * Q(d), RoundTo(f[i].y, d) * Q(d),
                                         RoundTo(f[i].z, d) * Q(d)>>]
 
@@ -125,7 +136,9 @@ ParseXyzFirst(ls) == LET f == FrameAt(ls, 1) IN IF f.ok THEN [ok |-> TRUE, frame
 (* a mol2 text is one record per @<TRIPOS>MOLECULE block; its line-level model is the business of C07/C10 *)
 ParseMol2All(ls)   == [ok |-> TRUE, frames |-> [i \in 1..Len(ls) |-> ls[i].atoms]]
 ParseMol2First(ls) == IF ls = <<>> THEN Bad ELSE [ok |-> TRUE, frames |-> <<ls[1].atoms>>]
-Parse(t, which) == CASE t.fmt = "xyz"  -> IF which = "first" THEN ParseXyzFirst(t.lines) ELSE ParseXyzAll(t.lines)
+(* deviation BlankLinesDropped: the reader skips every blank line, also the blank comment line of a frame *)
+Seen(ls) == IF "BlankLinesDropped" \in Deviations THEN SelectSeq(ls, LAMBDA l : ~(l.k = "comment" /\ l.blank)) ELSE ls
+Parse(t, which) == CASE t.fmt = "xyz"  -> IF which = "first" THEN ParseXyzFirst(Seen(t.lines)) ELSE ParseXyzAll(Seen(t.lines))
                      [] t.fmt = "mol2" -> IF which = "first" THEN ParseMol2First(t.lines) ELSE ParseMol2All(t.lines)
 
 ElsOf(f) == [i \in 1..Len(f) |-> f[i].el]
@@ -139,7 +152,7 @@ Conv(fs, U, d, res, inverted) ==
 
 (* ---- state machine ---------------------------------------------------------- *)
 NoObj  == [cls |-> "none", frames |-> <<>>]
-NoText == [fmt |-> "none", unit |-> "Angstrom", dec |-> 0, lines |-> <<>>, small |-> TRUE, dumps |-> 0, world |-> 1]
+NoText == [fmt |-> "none", unit |-> "Angstrom", dec |-> 0, lines |-> <<>>, small |-> TRUE, dumps |-> 0, world |-> 0]
 
 Init == mem = NoObj /\ text = NoText /\ truth = <<>> /\ last = [act |-> "init"]
 
@@ -153,21 +166,30 @@ Make(g) == /\ text.fmt \in {"none", "xyz"}
            /\ IF text.fmt = "none" THEN TRUE ELSE text.small /\ g \in SmallPool /\ text.dumps < MaxDumps
            /\ MakeAny(g)
 
-(* mem.dumps_xyz() appended to the text / mem.dump_xyz(stream) *)
-DumpFrames(a, fs, d) ==
-  /\ mem # NoObj /\ text.fmt \in {"none", "xyz"}
-  /\ text.fmt = "xyz" => text.world = World(mem)             \* one length scale per text
-  /\ text' = [fmt |-> "xyz", unit |-> "Angstrom", dec |-> d, lines |-> text.lines \o RenderFrames(fs, d, TRUE, World(mem), mem.cls = Ens /\ Len(fs) = Len(mem.frames)),
-              small |-> text.small /\ mem \in SmallPool, dumps |-> text.dumps + 1, world |-> World(mem)]
+(* mem.dumps_xyz() appended to the text / mem.dump_xyz(stream) / mem.dump_xyz(stream, fmt = "<width>.<D>f"):      *)
+(* the writer shows D decimals of Angstrom (the default format's D is read off its output; with route "dump_fmt" the *)
+(* caller chooses D) -- every written decimal is a decimal of the coordinate                                        *)
+DumpFrames(a, fs, D) ==
+  LET w == World(mem)
+      d == ModelDec(D, w)
+      capped == "FmtPrecisionCapped" \in Deviations /\ a.route = "dump_fmt" /\ ModelDec(6, w) < d /\ ModelDec(6, w) >= 0
+      o == [d |-> d, w |-> w, ens |-> mem.cls = Ens /\ Len(fs) = Len(mem.frames), blank |-> BlankName(mem),
+            cap |-> IF capped THEN ModelDec(6, w) ELSE d]
+  IN
+  /\ mem # NoObj /\ text.fmt \in {"none", "xyz"} /\ d >= 0
+  /\ text.fmt = "xyz" => text.world = w /\ text.dec = d       \* one length scale and one precision per text
+  /\ text' = [fmt |-> "xyz", unit |-> "Angstrom", dec |-> d, lines |-> text.lines \o RenderFrames(fs, o, TRUE),
+              small |-> text.small /\ mem \in SmallPool, dumps |-> text.dumps + 1, world |-> w]
   /\ truth' = truth \o [j \in 1..Len(fs) |-> Denotes(fs[j], d)]
   /\ mem' = NoObj
   /\ last' = a @@ [out |-> "ok"]
-Dump(route, d) == /\ mem # NoObj
-                  /\ DumpFrames([act |-> "dump", route |-> route], mem.frames, d)
-(* mem[i].dumps_xyz() / mem[i].dump_xyz(stream): the Conformer view number i of an ensemble writes its one frame *)
-DumpConformer(route, i, d) ==
+Dump(route, D) == /\ mem # NoObj
+                  /\ route = "dump_fmt" => mem.cls # Ens       \* the ensemble writer takes no format
+                  /\ DumpFrames([act |-> "dump", route |-> route, D |-> D], mem.frames, D)
+(* mem[i].dumps_xyz() / mem[i].dump_xyz(stream[, fmt]): the Conformer view number i of an ensemble writes its one frame *)
+DumpConformer(route, i, D) ==
   /\ mem.cls = Ens /\ i \in 1..Len(mem.frames)
-  /\ DumpFrames([act |-> "dumpconf", route |-> route, i |-> i], <<mem.frames[i]>>, d)
+  /\ DumpFrames([act |-> "dumpconf", route |-> route, i |-> i, D |-> D], <<mem.frames[i]>>, D)
 
 (* any text appears (a file of another program); tr = the frames it denotes in micro-Angstrom *)
 PutText(a, t, tr) ==
@@ -184,7 +206,8 @@ Foreign(fs, U, fmt, g) ==
       ln(a) == [k |-> "atom", el |-> a.el, x |-> a.x * n, y |-> a.y * n, z |-> a.z * n]
       body(f) == [i \in 1..Len(f) |-> ln(f[i])]
       RECURSIVE xyz(_)
-      xyz(s) == IF s = <<>> THEN <<>> ELSE Header(Head(s)) \o body(Head(s)) \o xyz(Tail(s))
+      \* files of other programs often leave the comment line empty: here every other frame does
+      xyz(s) == IF s = <<>> THEN <<>> ELSE Header(Head(s), (Len(s) + Len(Head(s))) % 2 = 0) \o body(Head(s)) \o xyz(Tail(s))
       m2  == [j \in 1..Len(fs) |-> [k |-> "mol2", atoms |-> body(fs[j])]]
       tr  == [j \in 1..Len(fs) |-> [i \in 1..Len(fs[j]) |->
                  <<fs[j][i].el, fs[j][i].x * Pow10(g), fs[j][i].y * Pow10(g), fs[j][i].z * Pow10(g)>>]]
@@ -194,7 +217,7 @@ Foreign(fs, U, fmt, g) ==
      /\ fmt = "mol2" => \A j \in 1..Len(fs) : Len(fs[j]) > 0
      /\ LET ls == IF fmt = "xyz" THEN xyz(fs) ELSE m2 IN
         PutText([act |-> "foreign", fmt |-> fmt, unit |-> U, dec |-> d, lines |-> ls],
-                [fmt |-> fmt, unit |-> U, dec |-> d, lines |-> ls, small |-> FALSE, dumps |-> 0, world |-> 1], tr)
+                [fmt |-> fmt, unit |-> U, dec |-> d, lines |-> ls, small |-> FALSE, dumps |-> 0, world |-> 0], tr)
 
 (* cls.<entry>_{xyz|mol2}(text, source_units = U), U naming the unit the file declares; the loaded       *)
 (* coordinates are reported in units of res micro-Angstrom                                              *)
@@ -221,10 +244,16 @@ Load(cls, entry, U, res) ==
 
 DumpLastConformer(r) == /\ mem # NoObj
                         /\ DumpConformer(r, Len(mem.frames), Dec)
+(* the caller's format: offered for the objects of FmtPool, every D of FmtDecs *)
+DumpFmt(D) == /\ mem \in FmtPool /\ Dump("dump_fmt", D)
+DumpLastConformerFmt(D) == /\ mem \in FmtPool /\ mem # NoObj
+                           /\ DumpConformer("dump_fmt", Len(mem.frames), D)
 Classes == GeomClasses \cup {Ens}
 Next == \/ \E g \in GeomPool : Make(g)
         \/ \E r \in {"dumps", "dump"} : Dump(r, Dec)
         \/ \E r \in {"dumps", "dump"} : DumpLastConformer(r)
+        \/ \E D \in FmtDecs : DumpFmt(D)
+        \/ \E D \in FmtDecs : DumpLastConformerFmt(D)
         \/ \E fs \in FilePool, U \in Units, fmt \in {"xyz", "mol2"}, g \in {0, 1, 3, 5} : Foreign(fs, U, fmt, g)
         \/ \E c \in Classes, e \in OneEntries \cup AllEntries, U \in Units : Load(c, e, U, Res(U))
 Spec == Init /\ [][Next]_vars
@@ -252,12 +281,15 @@ UnitsPreserveDistance ==
 TypeOK == /\ mem = NoObj \/ mem.cls \in Classes
           /\ text.fmt \in {"none", "xyz", "mol2"} /\ text.unit \in KnownUnits
           /\ text.fmt # "none" => Len(truth) >= 1
-PoolOK == /\ \A g \in GeomPool : /\ g.cls \in Classes /\ Len(g.frames) >= 1 /\ World(g) \in {1, 1000}
+PoolOK == /\ \A g \in GeomPool : /\ g.cls \in Classes /\ Len(g.frames) >= 1 /\ World(g) \in {-3, 0, 3}
                                  /\ g.cls # Ens => Len(g.frames) = 1
                                  /\ \A j \in 1..Len(g.frames) : \A i \in 1..Len(g.frames[j]) :
-                                       LET a == g.frames[j][i] IN /\ NoTie(a.x, Dec) /\ NoTie(a.y, Dec) /\ NoTie(a.z, Dec)
-                                                                  /\ a.ty \in {"regular", "dummy"}
-                                                                  /\ a.el = "dummy" => a.ty = "dummy"
+                                       LET a == g.frames[j][i] IN
+                                         /\ a.ty \in {"regular", "dummy"}
+                                         /\ (a.el = "dummy" => a.ty = "dummy")
+                                         /\ \A D \in {Dec} \cup (IF g \in FmtPool THEN FmtDecs ELSE {}) :
+                                               LET d == ModelDec(D, World(g)) IN
+                                               (d >= 0) => (NoTie(a.x, d) /\ NoTie(a.y, d) /\ NoTie(a.z, d))
                                  /\ \A j \in 1..Len(g.frames) : ElsOf(g.frames[j]) = ElsOf(g.frames[1])
-          /\ SmallPool \subseteq GeomPool /\ Units \subseteq KnownUnits /\ Dec \in 1..6
+          /\ SmallPool \subseteq GeomPool /\ FmtPool \subseteq GeomPool /\ Units \subseteq KnownUnits /\ Dec \in 1..12
 =============================================================================
